@@ -10,6 +10,7 @@ SPEC = {
             {"args": ["-mode", "st"], "corpus": "st"},
             {"args": ["-mode", "fw"], "corpus": "fw"},
             {"args": ["-mode", "pl"], "corpus": "pl"},
+            {"args": ["-mode", "ls"], "corpus": "ls"},
         ],
     },
     "strip_obs": r" alloc \d+",
